@@ -6,6 +6,7 @@ import CuqiVerif.Model.C17
 import CuqiVerif.Model.C17_psf
 import CuqiVerif.Model.C17_phantom
 import CuqiVerif.Model.C17_grids
+import CuqiVerif.Model.C17_state
 open CuqiVerif CuqiVerif.Proto CuqiVerif.C07 CuqiVerif.C17
 
 /-!
@@ -37,6 +38,7 @@ Line protocol of the C17 model (R = Rat).
   grids poisson <dim> <endpoint>      -> `src=<vec> sol=<vec> dom=<vec> fd=<vec>`  (source nodes, grid_sol, field grid, nodes of the difference scheme)
   grids heat <dim> <endpoint> <maxTime> -> `x=<vec> k=<iters> t=<vec>`
   grids abel <n> <endpoint>           -> `t=<vec> geom=<vec>`
+  hist  <lik,data,model,prior> <ops>  -> `lik=<id> data=<id> model=<id> prior=<id> refused=<n>` after the history; ops `;`-separated: `P<id>` (tp.prior = …), `L<lik>,<data>,<model>` (tp.likelihood = …), `D` (set_data)
   phantom <name> <dim> <param|none> -> `x=<vec>` | `nan` | `raises:<cls>` | `leaf` (not an exactly computable phantom)
 -/
 
@@ -88,6 +90,15 @@ def fmtPsf2 (size : Nat) : Psf2 Rat → String
 /-- gauss / moffat divide by `PSF_param**2`: a zero parameter is not a modelled input -/
 def zeroParamUnmodelled (name : String) (p : Rat) : Bool :=
   p == 0 && (name.toLower == "gauss" || name.toLower == "moffat")
+
+def parsePOp (t : String) : Option POp :=
+  if t = "D" then some .setData
+  else if t.startsWith "P" then (t.drop 1).toString.toNat?.map .setPrior
+  else if t.startsWith "L" then
+    match ((t.drop 1).toString.splitOn ",").map String.toNat? with
+    | [some l, some d, some m] => some (.setLik l d m)
+    | _ => none
+  else none
 
 def step : List String → String
   | ["dc1", bc, n, p] =>
@@ -278,6 +289,12 @@ def step : List String → String
     match n.toNat?, parseRat ep with
     | some n, some ep =>
       if n < 1 then "err:dim" else s!"t={fmtVec (tab n (abelTvec n ep))} geom={fmtVec (tab n (abelGeomGrid n ep))}"
+    | _, _ => "bad-op"
+  | ["hist", init, ops] =>
+    match (init.splitOn ",").map String.toNat?, (if ops = "_" then some [] else (ops.splitOn ";").mapM parsePOp) with
+    | [some l, some d, some m, some p], some ops =>
+      let r := (PState.mk l d m p).run ops
+      s!"lik={r.1.lik} data={r.1.likData} model={r.1.likModel} prior={r.1.prior} refused={r.2} comp={r.1.components.1},{r.1.components.2}"
     | _, _ => "bad-op"
   | ["phantom", name, dim, par] =>
     match dim.toNat?, parseOptRat par with
